@@ -101,6 +101,40 @@ def snapshot(bc) -> str:
         return f"OBSERVATION-FAILED:{type(e).__name__}:{e}"
 
 
+PARTS = {
+    "settings": lambda bc: repr(list(bc.settings.items())),
+    "settings_by_index": lambda bc: repr(list(bc.settings_by_index.items())),
+    "raw_settings": lambda bc: repr(list(bc.raw_settings.items())),
+    "raw_settings_by_index": lambda bc: repr(list(bc.raw_settings_by_index.items())),
+    "settings_tuple": lambda bc: repr([(s.index.value, s.type.value, s.length, bytes(s.value)) for s in bc.settings_tuple]),
+    "config_block": lambda bc: repr(bc.config_block),
+    "derived": lambda bc: repr((bc.domains, bc.uris, bc.domain_uri_pairs, bc.submit_uri, bc.killdate, bc.protocol, bc.port,
+                                bc.watermark, bc.is_trial, bc.public_key, bc.sleeptime, bc.jitter, bc.xorkey, bc.xorencoded,
+                                bc.setting_enums, bc.max_setting_enum)),
+    "repr": lambda bc: repr(bc),
+}
+
+
+def parts_of(bc) -> dict:
+    out = {}
+    for name, fn in PARTS.items():
+        try:
+            out[name] = fn(bc)
+        except Exception as e:  # noqa: BLE001 - observing the configuration must never fail
+            out[name] = f"OBSERVATION-FAILED:{type(e).__name__}:{e}"
+    return out
+
+
+def reference_parts(block) -> dict:
+    """Every observable part as a *brand-new* object reports it when that part is the very first thing asked of it:
+    the reference must not depend on the order in which a snapshot happens to read the views."""
+    from dissect.cobaltstrike.beacon import BeaconConfig
+    out = {}
+    for name, fn in PARTS.items():
+        out[name] = fn(BeaconConfig(block))
+    return out
+
+
 class State:
     cfgplan = None
 
@@ -148,17 +182,37 @@ def run_op(op: str, st: State, seams) -> str:
         for name in ("settings", "settings_by_index", "raw_settings", "raw_settings_by_index"):
             m = getattr(bc, name)
             k = next(iter(m))
-            for what in ("set", "del", "setnew"):
+            before = repr(list(m.items()))
+            for what in ("set", "del", "setnew", "ior", "update", "pop", "popitem", "setdefault", "clear", "dunder_ior"):
+                m = getattr(bc, name)
                 try:
                     if what == "set":
                         m[k] = 1
                     elif what == "del":
                         del m[k]
-                    else:
+                    elif what == "setnew":
                         m["__new__"] = 1
-                    out.append((name, what, "ACCEPTED"))
-                except TypeError:
-                    out.append((name, what, "TypeError"))
+                    elif what == "ior":
+                        m |= {k: 1, "__new__": 2}
+                    elif what == "update":
+                        m.update({k: 1})
+                    elif what == "pop":
+                        m.pop(k)
+                    elif what == "popitem":
+                        m.popitem()
+                    elif what == "setdefault":
+                        m.setdefault("__new__", 1)
+                    elif what == "clear":
+                        m.clear()
+                    else:
+                        m.__ior__({k: 1})
+                    verdict = "no-exception"
+                except (TypeError, AttributeError) as e:
+                    verdict = type(e).__name__
+                # rejected = an exception, or (e.g. `|=` on a read-only proxy, which rebinds the caller's name) no effect
+                if repr(list(getattr(bc, name).items())) != before:
+                    verdict = "ACCEPTED"
+                out.append((name, what, verdict if verdict == "ACCEPTED" else "rejected"))
         return repr(out)
     if op == "profile_text":
         return C2Profile.from_beacon_config(bc).as_text()
@@ -257,6 +311,10 @@ def execute(plan: dict) -> Result:
         twin_snap = snapshot(twin)
         if twin_snap.startswith("OBSERVATION-FAILED"):
             raise core.HarnessError(f"cannot observe a brand-new configuration: {twin_snap}")
+        try:
+            ref_parts = reference_parts(block)
+        except Exception as e:
+            raise core.HarnessError(f"cannot observe a brand-new configuration: {e!r}")
         is_http = twin.protocol in ("http", "https") and not twin.is_trial and bool(twin.public_key)
         for hist in histories:
             shared = State(BeaconConfig(block), priv, is_http)
@@ -305,6 +363,17 @@ def execute(plan: dict) -> Result:
                 if snap != twin_snap:
                     res.violate(("C14", "config_changed", op.split(":")[0]),
                                 f"after {hist[:i + 1]} the configuration differs from its never-used twin: {_diff(shared.bc, twin)}",
+                                _narrow(plan, hist[:i + 1]))
+                    break
+                now = parts_of(shared.bc)
+                bad = [k for k in PARTS if now[k] != ref_parts[k]]
+                if bad:
+                    k = bad[0]
+                    j = next((j for j, (a, b) in enumerate(zip(now[k], ref_parts[k])) if a != b), 0)
+                    res.violate(("C14", "observation_depends_on_history", k),
+                                f"after {hist[:i + 1]} (+ the snapshot reading all views in the order settings, settings_by_index, "
+                                f"raw_settings, raw_settings_by_index) {k} is not what a brand-new configuration reports when asked "
+                                f"first: ..{now[k][max(0, j - 60):j + 100]!r} vs ..{ref_parts[k][max(0, j - 60):j + 100]!r}",
                                 _narrow(plan, hist[:i + 1]))
                     break
         if snapshot(twin) != twin_snap:
